@@ -222,7 +222,8 @@ class IntervalProd(Set):
         elif not isinstance(other, IntervalProd):
             return False
 
-        return (np.all(self.min_pt == other.min_pt) and
+        return (self.ndim == other.ndim and
+                np.all(self.min_pt == other.min_pt) and
                 np.all(self.max_pt == other.max_pt))
 
     def __hash__(self):
